@@ -170,7 +170,21 @@ fn check_detector_file(seqs: &[Vec<u16>], as_contract: bool, nested: bool, rng: 
         if as_contract {
             let kw = *rng.pick(&["contract", "abstract contract", "library", "contract"]);
             starts.push(text.len());
-            text.push_str(&format!("{} K{} {{\n", kw, i));
+            // now and then the contract names earlier contracts of the file as its bases (the packing verdict is
+            // about the contract's own members)
+            let bases = if kw != "library" && i > 0 && rng.chance(1, 3) {
+                let mut b = format!(" is K{}", rng.below(i));
+                if i > 1 && rng.chance(1, 3) {
+                    b.push_str(&format!(", K{}", rng.below(i)));
+                }
+                b
+            } else {
+                String::new()
+            };
+            if !bases.is_empty() {
+                acc.cov("contract-with-bases-in-the-same-file");
+            }
+            text.push_str(&format!("{} K{}{} {{\n", kw, i, bases));
         } else {
             starts.push(text.len());
             text.push_str(&format!("struct S{} {{\n", i));
